@@ -122,6 +122,24 @@ Theorem c10_make_globals_fresh : forall (D : Type) (s : store D) eg tg s' a,
 Proof. exact @make_globals_fresh. Qed.
 Print Assumptions c10_make_globals_fresh.
 
+(** Caching loaders.  On a cache hit ([get_template] of a name already cached)
+    the loader re-binds [template.global_data = env.make_globals(globals)] and
+    the cached template keeps the matter it was loaded with.  Whatever the
+    previous global_data: the mapping the next render hands to its context
+    resolves a name to the render argument, else the loader matter, else the
+    NEW per-call template global, else the environment global; no existing
+    mapping is written. *)
+Theorem c10_cache_hit_keeps_matter_layer : forall (D : Type) (s : store D) eg tg2 gd_old ov args s' g,
+  eg < length s -> tg2 < length s -> ov < length s -> args < length s ->
+  NoDup (keys (read s tg2)) ->
+  cache_hit_globals s eg tg2 gd_old ov args = (s', g) ->
+  (forall k, mget s' g k =
+     first_some [assoc k (read s args); assoc k (read s ov);
+                 assoc k (read s tg2); assoc k (read s eg)])
+  /\ (forall a, a < length s -> read s' a = read s a).
+Proof. exact @cache_hit_keeps_matter_layer. Qed.
+Print Assumptions c10_cache_hit_keeps_matter_layer.
+
 (** Template.make_globals copies the render arguments into a new dict and
     chains (new dict, matter, template globals); nothing existing is written. *)
 Theorem c10_template_globals_fresh : forall (D : Type) (s : store D) gd ov args s' g,
